@@ -2,7 +2,10 @@ module verif
 
 go 1.23
 
-require golang.org/x/tools v0.29.0
+require (
+	github.com/google/go-cmp v0.6.0
+	golang.org/x/tools v0.29.0
+)
 
 require (
 	golang.org/x/mod v0.22.0 // indirect
